@@ -15,19 +15,26 @@ import (
 	tjson "go.pennock.tech/tabular/json"
 	"go.pennock.tech/tabular/markdown"
 	"go.pennock.tech/tabular/texttable"
+	"go.pennock.tech/tabular/texttable/decoration"
 )
 
 // slots: what "the same format" means
 var c14Slots = []string{"csv", "html:A", "html:B", "json", "markdown", "text:utf8-heavy", "text:ascii-simple", "text:none", "text:utf8-double",
+	"text:custom", // a decoration written by hand from its three base characters, never passed through Populate
 	// style strings that are no registered name but a proper prefix of several: whatever they select (nothing, today), they select it every time
 	"style:utf8-l", "style:utf8", "style:u", "style:texttable.utf8-"}
 
 // the slots every sequence is enumerated over (the style slots get their own family)
-const c14MainSlots = 9
+const c14MainSlots = 10
 
 type C14Render struct {
 	Slot  int `json:"slot"`  // -1: not a render but a cell appended to row AddRow of the table (see Add)
-	Fresh int `json:"fresh"` // 0 reuse this slot's wrapper, 1 new Wrap, 2 package-level / auto entry, 3 RenderTo of the reused wrapper into a failing writer (not judged; what follows is)
+	// Fresh: 0 reuse this slot's wrapper (text slots: ONE TextTable switched between decorations), 1 new Wrap,
+	// 2 package-level / auto entry, 3 RenderTo of the reused wrapper into a failing writer (not judged; what
+	// follows is), 4 auto.Render around the dedicated reused wrapper of slot Over with this slot's style,
+	// 5 this slot's own dedicated reused wrapper (text slots: its decoration is set once, at creation)
+	Fresh int `json:"fresh"`
+	Over  int `json:"over,omitempty"`
 	// Slot == -1: t.AllRows()[AddRow].Add(NewCell(Add)) between two renders; what is
 	// rendered afterwards is compared with a fresh table built WITH that cell
 	AddRow int       `json:"add_row,omitempty"`
@@ -38,6 +45,9 @@ type C14Spec struct {
 	Table   TableSpec   `json:"table"`
 	Props   bool        `json:"props"`  // set user properties on table, columns, rows, cells
 	Misuse  bool        `json:"misuse"` // provoke an error on the table before rendering
+	// TwoTables: the table's first ordinary row is also attached to another,
+	// longer table (a shared totals row): it now names that table as its own
+	TwoTables bool `json:"two_tables,omitempty"`
 	Renders []C14Render `json:"renders"`
 }
 
@@ -108,6 +118,7 @@ func init() {
 		ModelFn:  "C14_model2",
 		Rule: "a table (fixed shapes + random; optionally with user properties on the table, every column incl. column 0, rows and cells, and a pre-existing error) is rendered by a sequence of renders over 9 slots " +
 			"(csv, html with two different Id/Class/Caption/row-class settings from ONE reused HTMLTable, json, markdown, text in 4 decorations), each through the slot's reused wrapper, a fresh Wrap or a package-level/auto entry point; " +
+			"further slots: a hand-written decoration never passed through Populate, and four style strings that abbreviate several registered names (12 renders each through every route); runs of adjacent separators; each slot's own long-lived wrapper, auto applied around another slot's long-lived wrapper, a row shared with a second table; " +
 			"all sequences of length <= 2 over the slots on two tables exhaustively, random sequences of length <= 12 otherwise; observed: every output, and a serialised snapshot (counts, every row/cell text, emptiness, location, size, CellAt, user properties of every owner, Column(n) nil-ness for -1..n+1, error list identity) before and after; " +
 			"non-trivial when at least two renders of some slot happen and the table has a column",
 		Exhaustive: "render sequences of length <= 2 over 9 slots on 2 fixed tables",
@@ -170,6 +181,18 @@ func init() {
 					}
 				}
 			}
+			// long-lived dedicated wrappers; auto applied to another slot's wrapper; a row shared with another table
+			for ti, ts := range fixed {
+				withSep := ts
+				withSep.Rows = append(append([]RowSpec{}, ts.Rows...), RowSpec{Sep: true}, row("z", "9"))
+				for a := 0; a < c14MainSlots; a++ {
+					for b := 5; b < c14MainSlots; b++ {
+						out = append(out, mustJSON(C14Spec{Table: withSep, Props: ti == 0, TwoTables: (a+b)%2 == 0,
+							Renders: []C14Render{{Slot: b, Fresh: 5}, {Slot: a, Fresh: 4, Over: b}, {Slot: b, Fresh: 5}, {Slot: a, Fresh: 5}, {Slot: b, Fresh: 4, Over: a}, {Slot: a, Fresh: 5}, {Slot: b, Fresh: 5}}}))
+					}
+					out = append(out, mustJSON(C14Spec{Table: withSep, TwoTables: true, Renders: []C14Render{{Slot: a}, {Slot: a, Fresh: 1}, {Slot: a, Fresh: 2}}}))
+				}
+			}
 			// ambiguous abbreviations of decoration names, asked for again and again through every route
 			for ti, ts := range fixed {
 				for a := c14MainSlots; a < len(c14Slots); a++ {
@@ -206,6 +229,10 @@ func init() {
 				rs := make([]C14Render, k)
 				for j := range rs {
 					rs[j] = C14Render{Slot: r.Intn(len(c14Slots)), Fresh: r.Intn(3)}
+					if r.Pct(25) {
+						rs[j].Fresh = 4 + r.Intn(2)
+						rs[j].Over = r.Intn(c14MainSlots)
+					}
 					if r.Pct(10) {
 						rs[j].Fresh = 3
 					}
@@ -214,7 +241,7 @@ func init() {
 						rs[j] = C14Render{Slot: -1, AddRow: r.Intn(len(ts.Rows)), Add: &it}
 					}
 				}
-				out = append(out, mustJSON(C14Spec{Table: ts, Props: r.Bool(), Misuse: r.Pct(30), Renders: rs}))
+				out = append(out, mustJSON(C14Spec{Table: ts, Props: r.Bool(), Misuse: r.Pct(30), TwoTables: r.Pct(20), Renders: rs}))
 			}
 			return out
 		},
@@ -240,6 +267,22 @@ func init() {
 					}
 				}
 			}
+			share := func(tb tabular.Table) {
+				if !sp.TwoTables {
+					return
+				}
+				for _, row := range tb.AllRows() {
+					if !row.IsSeparator() {
+						other := tabular.New()
+						other.AddRowItems("o1")
+						other.AddRowItems("o2", "o3")
+						other.AddSeparator()
+						other.AddRow(row)
+						break
+					}
+				}
+			}
+			share(t)
 			if sp.Misuse {
 				t.AddError(fmt.Errorf("pre-existing error"))
 				if rows := t.AllRows(); len(rows) > 0 && rows[0].IsSeparator() {
@@ -264,6 +307,46 @@ func init() {
 					h.SetRowClassGenerator(func(n int, _ interface{}) htmltemplate.HTMLAttr { return htmltemplate.HTMLAttr(fmt.Sprintf("r%d", n)) }, nil)
 				}
 			}
+			setDecor := func(tt *texttable.TextTable, d string) {
+				if d == "custom" {
+					tt.SetDecoration(decoration.Decoration{Horizontal: "-", Vertical: "|", CrossPiece: "+"})
+					return
+				}
+				tt.SetDecorationNamed(d)
+			}
+			wtexts := map[string]*texttable.TextTable{}
+			// the dedicated reused wrapper of a slot (made on first use)
+			dedicated := func(slot string) tabular.Table {
+				switch {
+				case slot == "csv":
+					if wcsv == nil {
+						wcsv = csv.Wrap(t)
+					}
+					return wcsv
+				case strings.HasPrefix(slot, "html:"):
+					if whtml == nil {
+						whtml = html.Wrap(t)
+					}
+					return whtml
+				case slot == "json":
+					if wjson == nil {
+						wjson = tjson.Wrap(t)
+					}
+					return wjson
+				case slot == "markdown":
+					if wmd == nil {
+						wmd = markdown.Wrap(t)
+					}
+					return wmd
+				case strings.HasPrefix(slot, "text:"):
+					if wtexts[slot] == nil {
+						wtexts[slot] = texttable.Wrap(t)
+						setDecor(wtexts[slot], slot[5:])
+					}
+					return wtexts[slot]
+				}
+				return t
+			}
 			var renders, distinct []string // (slot, index into distinct) per render; the distinct outcomes
 			seenOut := map[string]int{}
 			addRender := func(id int, o Outcome) {
@@ -282,6 +365,7 @@ func init() {
 			freshTable := func(epoch int) tabular.Table {
 				ft := tabular.New()
 				sp.Table.Build(ft)
+				share(ft)
 				k := 0
 				for _, rd := range sp.Renders {
 					if rd.Slot == -1 && rd.Add != nil && k < epoch {
@@ -329,7 +413,7 @@ func init() {
 						return auto.Render(ft, slot[6:])
 					}
 					tt := texttable.Wrap(ft)
-					tt.SetDecorationNamed(slot[5:])
+					setDecor(tt, slot[5:])
 					return tt.Render()
 				})
 				first[id] = ref
@@ -388,7 +472,7 @@ func init() {
 						if wtext == nil {
 							wtext = texttable.Wrap(t)
 						}
-						wtext.SetDecorationNamed(slot[5:])
+						setDecor(wtext, slot[5:])
 						w = wtext
 					}
 					capture(func() (string, error) { return "", w.RenderTo(&collectWriter{failAt: 1 + len(renders)%3}) })
@@ -396,6 +480,22 @@ func init() {
 				}
 				id := rd.Slot + 100*epoch
 				o := capture(func() (string, error) {
+					if rd.Fresh == 4 {
+						// auto around another slot's long-lived wrapper, in this slot's style
+						style := map[string]string{"csv": "csv", "html:A": "html", "json": "json", "markdown": "markdown"}[slot]
+						if strings.HasPrefix(slot, "text:") && slot != "text:custom" {
+							style = slot[5:]
+							if rd.Over%2 == 1 {
+								style = "texttable." + style
+							}
+						}
+						if strings.HasPrefix(slot, "style:") {
+							style = slot[6:]
+						}
+						if style != "" {
+							return auto.Render(dedicated(c14Slots[rd.Over%c14MainSlots]), style)
+						}
+					}
 					switch {
 					case slot == "csv":
 						switch rd.Fresh {
@@ -458,11 +558,18 @@ func init() {
 							if wtext == nil {
 								wtext = texttable.Wrap(t)
 							}
-							wtext.SetDecorationNamed(d)
+							setDecor(wtext, d)
 							return wtext.Render()
+						case 5:
+							return dedicated(slot).(*texttable.TextTable).Render()
 						case 1:
 							tt := texttable.Wrap(t)
-							tt.SetDecorationNamed(d)
+							setDecor(tt, d)
+							return tt.Render()
+						}
+						if d == "custom" {
+							tt := texttable.Wrap(t)
+							setDecor(tt, d)
 							return tt.Render()
 						}
 						return auto.Render(t, d)
@@ -501,6 +608,9 @@ func init() {
 			if sp.Misuse {
 				tags = append(tags, "pre-existing-error")
 			}
+			if sp.TwoTables {
+				tags = append(tags, "row-shared-with-another-table")
+			}
 			return CaseOut{
 				Coq:        fmt.Sprintf("(%s, %s, %s, %s, %s)", view.Coq(true), cqStr(before), cqStr(after), cqList(distinct), cqList(renders)),
 				Desc:       desc,
@@ -534,6 +644,11 @@ func init() {
 			if sp.Misuse {
 				c := sp
 				c.Misuse = false
+				out = append(out, mustJSON(c))
+			}
+			if sp.TwoTables {
+				c := sp
+				c.TwoTables = false
 				out = append(out, mustJSON(c))
 			}
 			return out
